@@ -1112,6 +1112,15 @@ impl Tcb {
             && seq_acceptable(old(self).rcv.nxt, old(self).rcv.wnd, segment.text@.len() as u32, segment.header.seq, false, segment.header.ctl.sfin())
             && cdist(segment.header.seq, old(self).rcv.nxt) <= segment.text@.len())
             ==> final(self).incoming.text@.len() - old(self).incoming.text@.len() == vstd::math::min(segment.text@.len() - cdist(segment.header.seq, old(self).rcv.nxt), 65535 - old(self).incoming.text@.len()),   //# acceptable_text_is_delivered [C01,C03,C12,C02]
+        // (C01) RFC 9293 3.10.7.4 seventh: a segment whose text was processed is answered by <ACK=RCV.NXT> - also when none of
+        //       the text is new (a duplicate whose acknowledgment was lost) or none fits: otherwise the sender's
+        //       retransmission queue never drains and it retransmits for ever on a loss-free network
+        ((old(self).state == State::Established || old(self).state == State::FinWait1 || old(self).state == State::FinWait2)
+            && r == ProcessSegmentResult::Success && !segment.header.ctl.ssyn() && !segment.header.ctl.srst()
+            && seq_acceptable(old(self).rcv.nxt, old(self).rcv.wnd, segment.text@.len() as u32, segment.header.seq, false, segment.header.ctl.sfin())
+            && cdist(segment.header.seq, old(self).rcv.nxt) <= segment.text@.len() && segment.text@.len() > 0)
+            ==> (final(self).outgoing.oneshot@.len() > 0 && final(self).outgoing.oneshot@.last().ctl.sack()
+                 && final(self).outgoing.oneshot@.last().ack == final(self).rcv.nxt && !final(self).outgoing.oneshot@.last().ctl.srst()),   //# processed_text_is_acknowledged_even_when_nothing_is_new [C01,C03]
         // (C03, C01) RFC 9293 3.10.7.4 eighth: a FIN all of whose preceding text has been received is acknowledged -
         //            also when it is a retransmission of a FIN that was consumed before (otherwise a lost ACK is never regenerated)
         (old(self).state != State::SynSent && r == ProcessSegmentResult::Success && segment.header.ctl.sfin()
